@@ -57,4 +57,64 @@ theorem Video_unpack_total (t : State) (buf : Bytes) : (unpack t buf).2 ≠ .err
     | [] => simp
     | _ :: _ :: _ => simp
 
+/-! ### review additions (rev1-C08) -/
+
+/-- [review] work bound with the real stride (`splitTS_items_le` only says one chunk per byte): at most
+    ⌈(len − off)/188⌉ chunks, each non-empty and at most 188 bytes -/
+theorem splitTS_items_stride (buf : Bytes) (fuel off : Nat) (cs : List Bytes) (h : splitTS buf fuel off = .ok cs) :
+    cs.length * 188 ≤ (buf.length - off) + 187 ∧ ∀ c ∈ cs, 0 < c.length ∧ c.length ≤ 188 := by
+  induction fuel generalizing off cs with
+  | zero => simp [splitTS] at h
+  | succ fuel ih =>
+    by_cases hlt : off < buf.length
+    · cases hok : chunkOk (slice buf off (off + 188)) with
+      | false => simp [splitTS, hlt, hok] at h
+      | true =>
+        cases hr : splitTS buf fuel (off + 188) with
+        | error e => simp [splitTS, hlt, hok, hr] at h
+        | ok ds =>
+          simp only [splitTS, hlt, if_true, hok, hr, Except.ok.injEq] at h
+          subst h
+          have := ih (off + 188) ds hr
+          refine ⟨by simp only [List.length_cons, Nat.succ_mul]; omega, ?_⟩
+          intro c hc
+          simp only [List.mem_cons] at hc
+          rcases hc with rfl | hc
+          · simp only [slice_length]; omega
+          · exact this.2 c hc
+    · simp only [splitTS, hlt, if_false, Except.ok.injEq] at h
+      subst h; simp
+
+/-- [review] witness: channel-specific word 0x1000 and two 188-byte transport packets -/
+def wVideo : Bytes :=
+  [0, 0x10, 0, 0] ++ ([0x47, 0x01, 0x00, 0x10] ++ List.replicate 184 0xAB) ++ ([0x47, 0x01, 0x00, 0x11] ++ List.replicate 184 0xCD)
+
+set_option maxRecDepth 20000 in
+example : (unpack fresh wVideo).2 = .ok () ∧ (unpack fresh wVideo).1.blocks.length = 2 := ⟨by rfl, by rfl⟩
+set_option maxRecDepth 20000 in
+example : wVideo.length - 4 + 1 ≤ 400 ∧ (splitTS wVideo 400 4).map List.length = .ok 2 := ⟨by decide, by rfl⟩
+
+/-- [review] packet-level work bound (missing before): an accepted buffer yields at most ⌈(|buf| − 4)/188⌉ blocks -/
+theorem Video_items_le (t : State) (buf : Bytes) (h : (unpack t buf).2 = .ok ()) :
+    (unpack t buf).1.blocks.length * 188 ≤ (buf.length - 4) + 187 := by
+  revert h
+  simp only [unpack]
+  cases hc : structUnpackFrom VID_unpack_fmt0 buf 0 with
+  | error e => simp
+  | ok v =>
+    match v with
+    | [csw] =>
+      simp only
+      split
+      · simp
+      · cases hr : splitTS (buf.drop 4) ((buf.drop 4).length + 1) 0 with
+        | ok cs =>
+          simp only
+          intro _
+          have := (splitTS_items_stride _ _ _ _ hr).1
+          simp only [List.length_drop] at this
+          omega
+        | error e => simp
+    | [] => simp
+    | _ :: _ :: _ => simp
 end Acra.Props.C08
